@@ -63,6 +63,37 @@ func c04Cases(r *mon.Run) []c04Case {
 			add("unop", op+":"+a.name, fmt.Sprintf("  $ a = %s\n  > {x: %sa}\n", a.src, op))
 		}
 	}
+	// values that are not plain data: a function reference, a future, the request objects, a
+	// query key given twice (a Go []string inside the engine) — in every operator position
+	extra := []struct{ name, src string }{{"fnref", "fnref"}, {"future", "async {\n    > 1\n  }"}, {"multiq", "query.rep"}, {"headers", "headers"}, {"query", "query"}, {"fnref2", "fnref2"}}
+	addX := func(fam, detail, body string) {
+		cs = append(cs, c04Case{Family: fam, Detail: detail, Src: "! fnref(x: int): int {\n  > x\n}\n\n! fnref2(x: int): int {\n  > x + 1\n}\n\n" + c04Route(body), Req: HReq{M: "GET", P: "/t?rep=1&rep=2&one=1", H: map[string][]string{"X-Two": {"a", "b"}}}})
+	}
+	all := append(append([]struct{ name, src string }{}, c04Shapes...), extra...)
+	for _, op := range c04BinOps {
+		for _, a := range extra {
+			for _, b := range all {
+				addX("binop-special-values", op+":"+a.name+","+b.name, fmt.Sprintf("  $ a = %s\n  $ b = %s\n  > {x: a %s b}\n", a.src, b.src, op))
+				if a.name != b.name {
+					addX("binop-special-values", op+":"+b.name+","+a.name, fmt.Sprintf("  $ a = %s\n  $ b = %s\n  > {x: a %s b}\n", b.src, a.src, op))
+				}
+			}
+		}
+	}
+	for _, a := range extra {
+		for _, op := range []string{"!", "-"} {
+			addX("unop-special-values", op+":"+a.name, fmt.Sprintf("  $ a = %s\n  > {x: %sa}\n", a.src, op))
+		}
+		for _, b := range all {
+			addX("index-special-values", a.name+"["+b.name+"]", fmt.Sprintf("  $ a = %s\n  $ b = %s\n  > {x: a[b]}\n", a.src, b.src))
+			addX("index-special-values", b.name+"["+a.name+"]", fmt.Sprintf("  $ a = %s\n  $ b = %s\n  > {x: a[b]}\n", b.src, a.src))
+		}
+		addX("stmt-special-values", "if:"+a.name, fmt.Sprintf("  $ a = %s\n  if a {\n    > {x: 1}\n  }\n  > {x: 2}\n", a.src))
+		addX("stmt-special-values", "for:"+a.name, fmt.Sprintf("  $ a = %s\n  for it in a {\n    $ t = it\n  }\n  > {x: 2}\n", a.src))
+		addX("stmt-special-values", "switch:"+a.name, fmt.Sprintf("  $ a = %s\n  switch a {\n    case 7 {\n      > {x: 1}\n    }\n  }\n  > {x: 2}\n", a.src))
+		addX("stmt-special-values", "match:"+a.name, fmt.Sprintf("  $ a = %s\n  $ m = match a {\n    7 => 1\n    _ => 3\n  }\n  > {x: m}\n", a.src))
+		addX("stmt-special-values", "return:"+a.name, fmt.Sprintf("  $ a = %s\n  > {x: a, y: [a]}\n", a.src))
+	}
 	for _, a := range c04Shapes {
 		for _, b := range c04Shapes {
 			add("index", a.name+"["+b.name+"]", fmt.Sprintf("  $ a = %s\n  $ b = %s\n  > {x: a[b]}\n", a.src, b.src))
@@ -369,6 +400,9 @@ func c04Library(c c04Case, interp bool) string {
 	}
 	if strings.Contains(firstRoute(mod).Path, ":") {
 		return "?" // path parameters are bound by the HTTP handler, not by this driver
+	}
+	if strings.Contains(c.Src, "query") || strings.Contains(c.Src, "headers") {
+		return "?" // ... and so are the request objects
 	}
 	bc, err := compiler.NewCompilerWithOptLevel(compiler.OptBasic).CompileRoute(firstRoute(mod))
 	if err != nil {
